@@ -18,6 +18,9 @@ import core  # noqa: E402
 from core import Ctx, Infra, BuildLock  # noqa: E402
 
 sys.path.insert(0, core.REPO)
+if os.environ.get("VERIF_COV_DIR"):      # diagnostic only: which lines of the package do the checks execute
+    import covtrace  # noqa: E402
+    covtrace.install(core.REPO)
 
 
 def load_prop(pid):
